@@ -1,7 +1,9 @@
 """C10 - bindings are immutable and lexically scoped."""
+import os
 import time
 
 from . import c01
+from . import common as C
 
 PID = "C10"
 
@@ -37,8 +39,38 @@ RULE = ("programs = behaviours of Gen.tla with the scope probes (a module body r
         "model's symbol tables; non-trivial = distinct program compiling to >= 6 ops")
 
 
+def reserved_words_of_the_reference():
+    """the list under "Reserved words" in docsite/site/content/reference/_index.md"""
+    import re
+    text = open(os.path.join(C.REPO, "docsite", "site", "content", "reference", "_index.md")).read()
+    m = re.search(r"reserved in UCG[^\n]*\n((?:\s*\n|\s*\* \S+\s*\n)+)", text)
+    if not m:
+        raise C.ToolError("the reference no longer has its list of reserved words")
+    return set(re.findall(r"\* (\S+)", m.group(1)))
+
+
+def reserved_words_of_the_spec():
+    import re
+    text = open(os.path.join(C.SPEC, "Eval.tla")).read()
+    body = text[text.index("Reserved == {"):]
+    body = body[:body.index("}")]
+    words = {"".join(re.findall(r'"(.)"', w)) for w in re.findall(r"<<([^>]*)>>", body)}
+    if "N_self" in body:
+        words.add("self")
+    return words
+
+
 def main(tier, replay=None):
     t0 = time.time()
+    # The reference is the single source of the reserved words.  Eval.tla's Reserved must be that list minus the words
+    # that never reach binding (true, false, NULL do not lex as names - NULL is listed in the spec all the same -, `env`
+    # is the parser's), plus `include`, which the list forgets.
+    doc = reserved_words_of_the_reference()
+    want = (doc - {"true", "false", "env"}) | {"include"}
+    have = reserved_words_of_the_spec()
+    if want != have:
+        raise C.ToolError("Eval.tla's Reserved differs from the reference's list of reserved words: only in the "
+                          "reference %r, only in the specification %r" % (sorted(want - have), sorted(have - want)))
     fam = QUICK if tier == "quick" else THOROUGH
     return c01.run(PID, tier, fam, t0, worker=c01.work_prefix, rule=RULE,
                    after=lambda rep, stats, okprogs: c01.trace_leg(tier, rep, stats, okprogs, gd_tag="c10t"))
